@@ -249,6 +249,12 @@ def plans(thorough):
         for (xa, xb) in ((10, 40), (40, 10), (10, 10)):
             for sl in (0.0, 0.1):
                 pairs.append(((xa, 20, La, sl, 5.0, 2.0), (xb, 38, Lb, -sl, 9.0, 3.0)))
+    # well-separated ridges whose BOUNDING BOXES overlap: parallel sloped ridges, and a short ridge in the corner of a long sloped
+    # one's box (a decoder that collects the pixels of a line by box instead of by label mixes them)
+    for sl in (0.25, -0.25):
+        ya = 15 if sl > 0 else 40
+        pairs.append(((10, ya, 80, sl, 5.0, 2.0), (10, ya + 16, 80, sl, 9.0, 3.0)))
+        pairs.append(((10, ya, 90, sl, 5.0, 2.0), ((80, ya + 2, 20, 0.0, 9.0, 3.0) if sl > 0 else (12, ya + 2 - 20, 20, 0.0, 9.0, 3.0))))
     for p in pairs:
         for ds in ((1, 4) if not thorough else (1, 2, 4, 8)):
             out.append(('parse', p, True, ds))
@@ -281,7 +287,7 @@ def run(ctx):
         'Partial. PROVED (pyvc): LayoutEngine.rotate_layout sends every point (xr, yr) of a baseline / outline / region polygon found in the '
         'image rotated by rot x 90 degrees to within one pixel of its exact pre-image under np.rot90 (axiom: rot90(I,1)[i,j] = I[j, W-1-i] etc.), for '
         'rot = 1, 2, 3 and arbitrary image height and width. BOUNDED numeric: parse() on synthetic maps (1-3 ridges, lengths {6,20,60}, slopes '
-        '{0,+-0.1}, two height pairs, separation >= 15 px, end-point responses on/off, ds in {1,2,4,8}): one line per ridge, end points within 3 ds, '
+        '{0,+-0.1} plus pairs of slope +-0.25 whose bounding boxes overlap, two height pairs, separation >= 12 px, end-point responses on/off, ds in {1,2,4,8}): one line per ridge, end points within 3 ds, '
         'vertical position within ~1.5 ds, heights = map values x ds, each line with its own heights; detect() with a stub network deriving the maps from '
         'the (rotated) image on a 100 x 150 page for rot 0..3: lines, outlines and regions in original-image coordinates.')
     core.setup_repo_path()
